@@ -79,7 +79,7 @@ pub enum Act {
     /// salt: 0 none, 1 short, 2 = 64 bytes, 3 = 65 bytes; val: 0/1 small values, 2 = 1000 B, 3 = 1001 B
     PutMut { src: u8, key: u8, salt: u8, seq: i64, val: u8, cas: Cas, sig: Sig, tok: Tok },
     Announce { src: u8, ih: u8, port: u16, implied: Option<i64>, tok: Tok },
-    /// dt: seconds added to the server's wall clock for the timestamp
+    /// dt: milliseconds added to the server's wall clock for the timestamp
     AnnounceSigned { src: u8, ih: u8, key: u8, dt: i64, sig_ok: bool, tok: Tok },
     /// A request that neither yields nor needs a token (ping / find_node).
     Other { src: u8, find_node: bool },
@@ -1027,14 +1027,14 @@ impl SrvState {
                 let h = infohash(ih);
                 let sk = keypair(key);
                 let k = sk.verifying_key().to_bytes();
-                let ts = (self.wall_micros() as i64 + dt * 1_000_000) as u64;
+                let ts = (self.wall_micros() as i64 + dt * 1_000) as u64;
                 let mut signature = krpc::sign_announce(&sk, &h, ts).to_vec();
                 let mut defects = vec![];
                 if !sig_ok {
                     signature[9] ^= 0x02;
                     defects.push(203);
                 }
-                if dt.abs() > 45 {
+                if dt.abs() > 45_000 {
                     defects.push(203);
                 }
                 let bytes = krpc::q_announce_signed_peer(&t, &requester_id(src), &h, &token, &k, &signature, ts);
